@@ -40,6 +40,10 @@ def make(prop, rule_text, hostile_names):
         M.case(h64(text))
         M.cover("shapes", pc.shape_of(ast))
         pc.compare(ast, "features/x.feature", k, prop, M, case)
+        if i % 5 == 0:
+            pc.stream_pickles_agree(text, prop, M, case)
+        if i % 250 == 0:
+            pc.childless_without_uri(prop, M)
 
     def run_shard(spec, M):
         if spec["family"] == "thresholds":
@@ -68,6 +72,8 @@ def make(prop, rule_text, hostile_names):
             run_shard({"family": "thresholds", "tier": "thorough", "part": 0, "parts": 1, "seed": 0}, M)
         elif case["kind"] == "shard":
             run_shard(case["spec"], M)
+        elif case["kind"] == "childless":
+            pc.childless_without_uri(prop, M)
         elif case["kind"] == "ast":
             pc.compare(case["doc"], "features/x.feature", case["next_id"], prop, M, case)
         else:
